@@ -19,6 +19,9 @@ CHECKS['C01'] = dict(cat='exploration', tech='Hypothesis-generated configuration
 CHECKS['C16'] = dict(cat='exploration', tech='exhaustive integer grid + Hypothesis floats against a closed-form schedule (direct calls of BuildPricingModel/BuildPTCModel); metamorphic paired runs with/without incentives; run-level price series vs closed form',
              text='The two schedule builders are compared with the closed form over a strided (quick) or full (thorough) integer grid lifetime x escalation start x PTC duration and over random float settings incl. start > end; generated runs check the zero construction-year prefix and the operating part of every price series; paired runs check RITCValue = rate x cost and the exact CCap / Coam deltas of grants, incentives, fees and tax relief, alone and combined.',
              note='PTC durations restricted to 0..lifetime as in the statement; heat/cooling PTC amount not checked (unit conversion not fixed by the statement); sampled floats.', ref='2/C16')
+CHECKS['C02'] = dict(cat='exploration', tech='Hypothesis-generated configurations; oracle: per-time-step energy-balance identities and an independently coded yearly trapezoid recomputed from the snapshot',
+             text='Generated runs over every surface-plant class (sub/supercritical ORC, single/double flash, industrial, heat pump, chiller, district heating) and all cogeneration variants, lifetime 1..100 x time steps 1..100; heat extracted, net electricity, efficiency/COP relations, the cogeneration heat split, the district daily supply/demand balance, every annual kWh series and remaining reservoir heat are recomputed at rel 1e-9.',
+             note='Year slices follow the documented sample-index convention (slice i = samples [i*tspy,(i+1)*tspy], short last slice). Add-on and S-DAC-GT runs are outside the quantifier; sampled inputs.', ref='2/C02')
 NOT_YET = {}
 def main():
     props = [json.loads(l) for l in open(os.path.join(HERE, 'properties.jsonl'))]
